@@ -3,8 +3,10 @@ package main
 import (
 	"fmt"
 	"go/constant"
+	"go/parser"
 	"go/types"
 	"math/big"
+	"strings"
 
 	"golang.org/x/tools/go/packages"
 )
@@ -176,6 +178,14 @@ func cvEval(n *SNode, c *CEnv) *CV {
 	case "index":
 		b := cvEval(n.Args[0], c)
 		i := cvEval(n.Args[1], c)
+		if b.K == "map" {
+			for _, e := range b.L {
+				if e.F["k"].equal(i) {
+					return e.F["v"]
+				}
+			}
+			cvFail("map key not present in spec")
+		}
 		if b.K != "slice" || !i.I.IsInt64() || i.I.Int64() < 0 || i.I.Int64() >= int64(len(b.L)) {
 			cvFail("index out of range in spec")
 		}
@@ -183,7 +193,40 @@ func cvEval(n *SNode, c *CEnv) *CV {
 	case "call":
 		return cvCall(n, c)
 	case "lit":
-		cvFail("struct literal in concrete evaluation")
+		tn := n.Args[0]
+		name := tn.Name
+		if tn.Op == "field" {
+			name = tn.Args[0].Name + "." + tn.Name
+		}
+		if c.e == nil || c.pkg == nil {
+			cvFail("struct literal without package context")
+		}
+		ex, perr := parser.ParseExpr(name)
+		if perr != nil {
+			cvFail("struct literal type %s", name)
+		}
+		t := (&FCtx{E: c.e}).typeFromExpr(ex, c.pkg)
+		if t == nil {
+			cvFail("struct literal type %s", name)
+		}
+		st, ok := t.Underlying().(*types.Struct)
+		if !ok {
+			cvFail("literal of non-struct %s", name)
+		}
+		r := &CV{K: "struct", F: map[string]*CV{}}
+		k := 1
+		for i := 0; i < st.NumFields(); i++ {
+			f := st.Field(i)
+			if strings.HasPrefix(f.Name(), "XXX_") {
+				continue
+			}
+			if k >= len(n.Args) {
+				cvFail("literal %s: too few fields", name)
+			}
+			r.F[f.Name()] = cvEval(n.Args[k], c)
+			k++
+		}
+		return r
 	}
 	cvFail("unsupported spec node %s", n.Op)
 	return nil
@@ -356,12 +399,23 @@ func cvCall(n *SNode, c *CEnv) *CV {
 	case "len":
 		evalArgs()
 		switch args[0].K {
-		case "slice":
+		case "slice", "map":
 			return cvInt(int64(len(args[0].L)))
 		case "str":
 			return cvInt(int64(len(args[0].S)))
 		}
 		cvFail("len")
+	case "has":
+		evalArgs()
+		if args[0].K != "map" {
+			cvFail("has on a non-map in concrete evaluation")
+		}
+		for _, e := range args[0].L {
+			if e.F["k"].equal(args[1]) {
+				return cvBool(true)
+			}
+		}
+		return cvBool(false)
 	case "cap":
 		evalArgs()
 		return cvInt(int64(args[0].N))
